@@ -22,6 +22,8 @@ RULE = ('Hypothesis draws mode sizes with N = prod(n) <= 64 (quick) / 256 (thoro
         'e(k+1 sweeps) <= e(k sweeps), exact guess retained, maximal-rank guess gives x* after one sweep, solve == lu, dims of '
         'the rhs, ALS ranks <= guess ranks, MALS ranks <= max_rank. Non-trivial: complex, non-maximal guess with repeats >= 2, '
         'order 1, lu, or MALS with a rank cap.')
+RULE += (' ' + 'Added classes: condition number 1e11 (energy norm), NumPy-scalar threshold / max_rank, size-1 modes, and for ALS data with exact zeros (zero right-hand side; diagonal operator, unit-vector guess, sparse right-hand side).')
+
 ASSUMPTIONS = [
     'oracle: numpy.linalg.solve on the dense system; operators are built by vt/dense.tt_svd (not by TT(array))',
     'initial guesses have full-rank interface matrices: ranks admissible from the right (r_i <= n_i r_{i+1}) and continuous '
